@@ -997,7 +997,7 @@ func (env *SpecEnv) viewCall(e *Expr) *SV {
 }
 
 // abstract views: uninterpreted functions of the reference; "cursor" is a ghost heap field.
-var abstractViews = map[string]bool{"RLen": true, "RBit": true, "cursor": true, "FLen": true, "FByte": true, "fpos": true}
+var abstractViews = map[string]bool{"RLen": true, "RBit": true, "cursor": true, "FLen": true, "FByte": true, "FBit": true, "fpos": true}
 
 func (x *Exec) abstractView(env *SpecEnv, name string, a *SV, e *Expr) *SV {
 	switch name {
@@ -1012,6 +1012,9 @@ func (x *Exec) abstractView(env *SpecEnv, name string, a *SV, e *Expr) *SV {
 		if len(e.Args) != 2 {
 			stale("RBit(r, i) in %s", e)
 		}
+		x.eng.DeclareUF(name, SBool, SInt, SInt)
+		return &SV{T: App(name, SBool, a.T, env.evalInt(e.Args[1]))}
+	case "FBit":
 		x.eng.DeclareUF(name, SBool, SInt, SInt)
 		return &SV{T: App(name, SBool, a.T, env.evalInt(e.Args[1]))}
 	case "FByte":
